@@ -449,7 +449,7 @@ func (x *Run) exec(fr *Frame, st *State, instr ssa.Instruction, outs *[]Outcome)
 		x.mayPanic(fr, st, fmt.Sprintf("(>= %s 0)", sz.T), "makechan", ins, outs)
 		st.nfresh++
 		ref := intLit(int64(-st.nfresh))
-		x.setArr(st, x.chClosedArr(), store(x.arr(st, x.chClosedArr()), ref, "false"))
+		x.setArr(st, x.chClosedArr(ins.Type()), store(x.arr(st, x.chClosedArr(ins.Type())), ref, "false"))
 		x.setArr(st, x.chCapArr(), store(x.arr(st, x.chCapArr()), ref, sz.T))
 		fr.env[ins] = Val{T: ref, S: SInt, Ty: ins.Type(), Fresh: true}
 	case *ssa.MakeClosure:
@@ -502,7 +502,7 @@ func (x *Run) exec(fr *Frame, st *State, instr ssa.Instruction, outs *[]Outcome)
 		fr.env[ins] = Val{T: "0", S: SInt, Ty: ins.Type(), Iter: it}
 	case *ssa.Send:
 		ch := x.val(fr, st, ins.Chan)
-		closed := sel(x.arr(st, x.chClosedArr()), ch.T)
+		closed := sel(x.arr(st, x.chClosedArr(ins.Chan.Type())), ch.T)
 		x.mayPanic(fr, st, not(closed), "send-on-closed", ins, outs)
 		st.events = append(st.events, Event{Name: "send", Args: []Val{ch, x.val(fr, st, ins.X)}})
 	case *ssa.Go:
@@ -622,7 +622,7 @@ func (x *Run) execUnOp(fr *Frame, st *State, ins *ssa.UnOp, outs *[]Outcome) {
 		st.events = append(st.events, Event{Name: "recv", Args: []Val{v, r}})
 		if ins.CommaOk {
 			ok := x.freshVal(st, "recvok", types.Typ[types.Bool])
-			closed := sel(x.arr(st, x.chClosedArr()), v.T)
+			closed := sel(x.arr(st, x.chClosedArr(ins.X.Type())), v.T)
 			st.assume(implies(not(closed), ok.T))
 			st.assume(implies(not(ok.T), eq(r.T, x.d.zero(ct.Elem()))))
 			fr.env[ins] = Val{S: "Tuple", Ty: ins.Type(), Tup: []Val{r, ok}}
